@@ -99,6 +99,26 @@ def read_python_fstring(bodies: Sequence[Tuple[str, str]]) -> List[Units]:
         if not storable(src):
             out.append(None)
             continue
+        # exactly one f-string token sequence (no implicit concatenation with a following literal)
+        try:
+            toks = [
+                t
+                for t in tokenize.tokenize(io.BytesIO(src.encode("utf-8")).readline)
+                if t.type not in (tokenize.ENCODING, tokenize.NEWLINE, tokenize.NL, tokenize.ENDMARKER)
+            ]
+        except BaseException:
+            out.append(None)
+            continue
+        fstart = getattr(tokenize, "FSTRING_START", None)
+        fend = getattr(tokenize, "FSTRING_END", None)
+        if fstart is not None:
+            if not toks or toks[0].type != fstart or toks[-1].type != fend or sum(t.type == fstart for t in toks) != 1 \
+                    or any(t.type == tokenize.STRING for t in toks):
+                out.append(None)
+                continue
+        elif len(toks) != 1 or toks[0].type != tokenize.STRING:
+            out.append(None)
+            continue
         try:
             with warnings.catch_warnings():
                 warnings.simplefilter("ignore")
